@@ -623,6 +623,20 @@ def m_shape(x):
     return x.shape
 
 
+@entry("jax.numpy.isclose", "numpy.isclose", "math.isclose")
+def m_isclose(a, b, rtol=1e-5, atol=1e-8, equal_nan=False, **kw):
+    """numpy semantics over the reals: |a - b| <= atol + rtol * |b|  (NOT an equality test: nearby distinct values are `close`)"""
+    x, y = to_real(lift(a)), to_real(lift(b))
+    d = z3.If(x - y >= 0, x - y, y - x)
+    ay = z3.If(y >= 0, y, -y)
+    return SV(d <= to_real(lift(atol)) + to_real(lift(rtol)) * ay, _elem(a) or _elem(b))
+
+
+@entry("jax.numpy.allclose", "numpy.allclose")
+def m_allclose(a, b, rtol=1e-5, atol=1e-8, **kw):
+    return m_isclose(a, b, rtol, atol)
+
+
 @entry("jax.numpy.broadcast_shapes")
 def m_broadcast_shapes(*shapes):
     out = ()
